@@ -216,13 +216,13 @@ Fixpoint hrps_list_valid_from (prev : list rps_derived) (idx num : N) (l : list 
   end.
 
 (* what the Go structure holds: per-entry deltas (delta_poc_sX_minus1 + 1) for coded sets; for
-   inter-predicted sets only NumDeltaPocs *)
+   inter-predicted sets only NumDeltaPocs and (unexported) the number of used entries *)
 Definition expected_hrps (d : rps_derived) (r : hrps_syntax) : hrps :=
   match r with
   | RpsExplicit neg pos =>
       mkHRps (map (fun e => fst e + 1) neg) (map (fun e => fst e + 1) pos) (map snd neg) (map snd pos)
-             (lenN neg) (lenN pos) (lenN neg + lenN pos)
-  | RpsInter _ _ _ _ => mkHRps [] [] [] [] 0 0 (d_num_delta d)
+             (lenN neg) (lenN pos) (lenN neg + lenN pos) 0
+  | RpsInter _ _ _ _ => mkHRps [] [] [] [] 0 0 (d_num_delta d) (d_num_used d)
   end.
 
 (* ------------------------------------------------------------------ hrd_parameters (E.2.2, E.2.3) *)
@@ -1193,24 +1193,6 @@ Section HSliceSyntax.
     && (lenN (sx_slice_segment_header_extension_data v) <=? 256)
     && forallb (fun x => x <? 256) (sx_slice_segment_header_extension_data v)
     && forallb (fun x => x <? 256) (sx_slice_segment_data v).
-
-  (* what hevc.ParseSliceHeader counts for the short-term set: the flags of an inter-predicted set are
-     not derived (known finding), so only coded sets contribute *)
-  Definition hs_go_st_used : N :=
-    if hs_nidr then
-      if sx_short_term_ref_pic_set_sps_flag v
-      then match nth_error (sx_st_ref_pic_sets sp) (N.to_nat hs_st_idx) with
-           | Some (RpsExplicit neg pos) => countb (map snd neg) + countb (map snd pos)
-           | _ => 0
-           end
-      else match sx_slice_st_rps v with
-           | RpsExplicit neg pos => countb (map snd neg) + countb (map snd pos)
-           | _ => 0
-           end
-    else 0.
-  (* exact guard excluding that defect: the count is only consumed by ref_pic_lists_modification() *)
-  Definition hslice_rps_guard : bool :=
-    negb (hs_inter && sx_lists_modification_present_flag pp) || (hs_go_st_used =? d_num_used hs_curr_rps).
 
   Definition expected_hslice_rps : hrps :=
     if hs_nidr then
